@@ -32,8 +32,8 @@ CHECKS = {
    note="Trusts: the frozen transcription of the documented keyword table (cijsim/golden/writer_rules.json); the in-memory side is the calculator's own public attribute (whether that value is physically right is C05, not claimed)."),
 
  "C04": dict(engine="tasksim", section="5 C04", technique="deterministic simulation of request histories (seeded subsets, orders, spellings) against the real task scheduler under a trace monitor; differential against singleton-request references",
-   text="Seeded exploration: for seeded stub-calculator worlds with seven kinds of strain fields (including nearly equal axial strains, where approximate de-duplication could merge distinct tasks), the 21 singleton requests give reference values; then the full set in three orders and 30 (thorough 60) seeded request histories run on the real resolve/calculate/lookup code while a monitor stamps every evaluation, store and lookup with a sequence number and checks: graph acyclic, work list topological, every dependency of a shear task stored before it is evaluated, no task evaluated twice, every requested key (in every spelling) gets a grid-shaped value; afterwards every value must equal its singleton-request value within 1e-9 of the tensor's scale. Isotropy and axis-relabelling clauses ride along as differential checks. Sampling, not proof.",
-   note="Trusts: the stub calculator exposes what the contribution classes read; tolerance 1e-9 x global scale (rounding differences observed <= 2e-16, smallest wrong-merge effect seen 1e-8). The 'calculator' world kind of the design (real Calculator behind the scheduler) is exercised by C12/C14 sessions rather than here."),
+   text="Seeded exploration: for seeded worlds (stub calculators with seven kinds of strain fields, and real Calculators with lattice-derived strains) (including nearly equal axial strains, where approximate de-duplication could merge distinct tasks), the 21 singleton requests give reference values; then the full set in three orders and 30 (thorough 60) seeded request histories run on the real resolve/calculate/lookup code while a monitor stamps every evaluation, store and lookup with a sequence number and checks: graph acyclic, work list topological, every dependency of a shear task stored before it is evaluated, no task evaluated twice, every requested key (in every spelling) gets a grid-shaped value; afterwards every value must equal its singleton-request value within 1e-9 of the tensor's scale. Isotropy and axis-relabelling clauses ride along as differential checks. Sampling, not proof.",
+   note="Trusts: the stub calculator exposes what the contribution classes read; tolerance 1e-9 x global scale (rounding differences observed <= 2e-16, smallest wrong-merge effect seen 1e-8). 85 % of worlds use the stub calculator, 15 % a real Calculator built from generated input files with a lattice block."),
  "C17": dict(engine="sessionsim", section="5 C17", technique="deterministic simulation (thin): write/overwrite/read histories by 1-3 clients in shared and separate directories, checked against the simulated-disk model; injected open/read/torn-write faults with retry",
    text="Seeded exploration: whatever the real readers return (read_energy, read_elast_data, Calculator.qha_input / elast_data) must equal the numbers the simulator wrote into that path, to the written precision; write_energy followed -- any number of operations later, after overwrites by smaller data sets and writes by other clients -- by read_energy returns the latest data set to the written precision; the fill command's stdout parses as a static table equal to the symmetry-filled parse of its input with header lines, volumes and lattice block preserved. Nothing nondeterministic is in the statement; the simulation contributes histories and faulted retries only (see DESIGN.md 3).",
    note="Trusts: the simulator's own file writers as ground truth (10 significant digits); for the fill round trip, apply_symetry_on_elast_data (real code) is the reference, as the statement defines it."),
